@@ -52,7 +52,7 @@ type gen struct {
 
 var keyPool = []string{"a", "b", "c", "d", "x", "key", "value", "id", "é", "a b"}
 var varPool = []string{"v", "w", "n", "s"}
-var strPool = []string{"", "a", "ab", "abc", "b", "A", "1", "12", "1.5", "-3", "1e2", "true", "yes", "No", "falſe", "off", " 1", "0x10", "inf", "NaN", "é", "éa", "z", "2023-08-15", "12:34:56", "12:34:56+05:30", "2023-08-15T12:34:56", "2023-08-15 12:34:56Z", "2023-08-15T12:34:56.789+02"}
+var strPool = []string{"", "a", "ab", "abc", "b", "A", "1", "12", "1.5", "-3", "1e2", "true", "yes", "No", "falſe", "off", " 1", "0x10", "inf", "NaN", "1_0", "1__0", "1_", "0x_1p0", "1e1_0", "0x1p-2", "+Infinity", ".5", "5.", "é", "éa", "z", "2023-08-15", "12:34:56", "12:34:56+05:30", "2023-08-15T12:34:56", "2023-08-15 12:34:56Z", "2023-08-15T12:34:56.789+02"}
 
 var dtStrPool = []string{
 	"2023-08-15", "2023-08-16", "1999-12-31", "2000-02-29", "0001-01-01", "9999-12-31",
